@@ -5,7 +5,7 @@
 cd /verif
 pat=${1:-C}
 : > work/regress_seeded.log
-for d in seeded/${pat}*-[abc]; do
+for d in seeded/${pat}*-[a-z]; do
   p=$(basename $d | cut -c1-3)
   if ! git -C /repo apply --check $(realpath $d)/patch.diff 2>/dev/null; then echo "[$(basename $d)] patch does not apply to the current tree" | tee -a work/regress_seeded.log; continue; fi
   git -C /repo apply $(realpath $d)/patch.diff
